@@ -15,10 +15,10 @@ LEVEL = "exploration"
 EXHAUSTIVE_LEN = {"quick": 3, "thorough": 4}
 FAULT_LEN = {"quick": 2, "thorough": 3}
 SAMPLED = {"quick": 600, "thorough": 24000}
-RULE = ("program = sequence of calls over {begin, send(p0), send(p1), send_offsets_to_transaction, commit, abort, "
+RULE = ("program = sequence of calls over {begin, send(p0), send(p1), two concurrent send()s to p0 and p1 (one AddPartitionsToTxn names both), send_offsets_to_transaction, commit, abort, "
         "transaction() context exit without / with exception, context whose body keeps running 0.6 s after a fire-and-forget send and then exits normally / with an exception}; after every call the harness waits until the cluster has "
         "seen no transactional-class request (Produce, AddPartitionsToTxn, AddOffsetsToTxn, TxnOffsetCommit, EndTxn) for a "
-        "quiet period. Enumerated: every sequence of length <= L without fault (quick L=3: 1,110, thorough L=4: 11,110), every "
+        "quiet period. Enumerated: every sequence of length <= L without fault (quick L=3: 1,463, thorough L=4: 16,104), every "
         "sequence of length <= L' (quick 2, thorough 3) x each of 24 single scripted faults (abortable: TOPIC/GROUP "
         "authorization at AddPartitionsToTxn / AddOffsetsToTxn / TxnOffsetCommit; fatal: INVALID_PRODUCER_EPOCH, "
         "TRANSACTIONAL_ID_AUTHORIZATION_FAILED, INVALID_PRODUCER_ID_MAPPING, INVALID_TXN_STATE, OUT_OF_ORDER_SEQUENCE_NUMBER at "
